@@ -32,6 +32,12 @@ func errClass(err string) string {
 	switch {
 	case strings.Contains(e, "panic"):
 		return "panic"
+	case strings.Contains(e, "onpersist failed") && strings.Contains(e, "index out of range"):
+		return "onpersist-index-out-of-range"
+	case strings.Contains(e, "onpersist failed"):
+		return "onpersist"
+	case strings.Contains(e, "postpersist failed"):
+		return "postpersist"
 	case strings.Contains(e, "witness") || strings.Contains(e, "signature") || strings.Contains(e, "verification"):
 		return "witness"
 	case strings.Contains(e, "merkle"):
@@ -166,9 +172,24 @@ func analyze(cl *cluster) *analysis {
 
 	// (2a) every AddBlock error of the run: a node's queue only offers the
 	// block right above its ledger, so an error is a rejection
+	lastVals := map[int]int{}
 	for _, e := range rec.events {
 		if e.Err == "" {
 			a.obs["addblock_ok"]++
+			// (2d) NextConsensus of an accepted block is the account of the
+			// validators the accepting ledger names for the next block
+			if e.LedgerNextNC != "" {
+				a.obs["next_consensus_checked_against_ledger_validators"]++
+				if e.LedgerNextNC != e.BlockNextNC {
+					a.add("safety:next-consensus-differs-from-ledger-next-validators",
+						fmt.Sprintf("block %d %s accepted by node %d has NextConsensus %s, but the %d validators its ledger names for block %d make %s", e.Height, e.Hash, e.Node, e.BlockNextNC, e.NextVals, e.Height+1, e.LedgerNextNC),
+						map[string]any{"event": e, "commits": commitsWitness(e.Height), "heights": hs})
+				}
+				if lv, ok := lastVals[e.Node]; ok && lv != e.NextVals && e.Node == 0 {
+					a.obs["validator_count_changes"]++
+				}
+				lastVals[e.Node] = e.NextVals
+			}
 			continue
 		}
 		a.obs["addblock_errors"]++
